@@ -179,6 +179,19 @@ impl McpManager {
         let tool_key = tool_spec_param.build_key();
         if let Some(tool_spec) = self.tool_spec_map.get(&tool_key) {
             let mut mul_tool_spec = tool_spec.as_ref().to_owned();
+            // the per-version reference counters are neither persisted (a definition loaded from a
+            // snapshot carries 0 for every version) nor lowered when a server is removed, so
+            // whether the version that is replaced here is kept would depend on how this node got
+            // its state. Take its count from the servers.
+            let old_version = mul_tool_spec.current_version;
+            let refs = self
+                .count_tool_refs(&tool_key)
+                .get(&old_version)
+                .copied()
+                .unwrap_or(0);
+            if let Some(version) = mul_tool_spec.versions.get_mut(&old_version) {
+                version.ref_count = refs;
+            }
             mul_tool_spec.update_param(tool_spec_param);
             self.tool_spec_map.insert(tool_key, Arc::new(mul_tool_spec));
         } else {
@@ -187,6 +200,18 @@ impl McpManager {
             self.tool_spec_map.insert(tool_key, Arc::new(tool_spec));
         }
         Ok(())
+    }
+
+    /// per version of `tool_key`: the number of server values (current, released, historic)
+    /// that refer to it, counted from the servers themselves. The reference map and the
+    /// per-version counters are only rebuilt by load_completed, i.e. after the log has been
+    /// replayed on top of a snapshot.
+    fn count_tool_refs(&self, tool_key: &ToolKey) -> HashMap<u64, i64> {
+        let mut ref_map = HashMap::new();
+        for mcp_server in self.server_map.values() {
+            Self::calculate_tool_ref(&mut ref_map, mcp_server);
+        }
+        ref_map.remove(tool_key).unwrap_or_default()
     }
 
     fn update_tool_spec_ref(
@@ -240,16 +265,18 @@ impl McpManager {
     }
 
     fn remove_tool_spec(&mut self, tool_key: ToolKey) -> anyhow::Result<()> {
-        if let Some(map) = self.tool_spec_version_ref_map.get(&tool_key) {
-            if !map.is_empty() {
-                #[cfg(feature = "debug")]
-                log::warn!(
-                    "tool spec is used,{:?},{}",
-                    &tool_key,
-                    serde_json::to_string(&map).unwrap()
-                );
-                return Err(anyhow::anyhow!("tool spec is used"));
-            }
+        // decided from the servers themselves: the incrementally kept reference map is rebuilt
+        // only after a load (and keeps entries of references that are gone), so it would refuse
+        // on one node what the replay of the same entry accepts on another
+        let refs = self.count_tool_refs(&tool_key);
+        if !refs.is_empty() {
+            #[cfg(feature = "debug")]
+            log::warn!(
+                "tool spec is used,{:?},{}",
+                &tool_key,
+                serde_json::to_string(&refs).unwrap()
+            );
+            return Err(anyhow::anyhow!("tool spec is used"));
         }
         self.tool_spec_map.remove(&tool_key);
         Ok(())
